@@ -47,6 +47,7 @@ def layout_form(L, variant=0, seed=0):
         add(type="calculate", name="ref_two", calculation=f"{t} + ${{referrer}} + {t}")
         add(type="calculate", name="ref_inst", calculation=f"instance('L')/root/item[name = {t}]/label")
         add(type="text", name="ref_lastsaved", label="RL", default="${last-saved#target}")
+        add(type="calculate", name="ref_ls_mixed", calculation=f"${{last-saved#target}} + {t} + ${{last-saved#target}}")
         add(type="text", name="ref_trig", label="RT", trigger=t, calculation=f"concat({t}, 'x')")
         if variant % 2 == 0:
             add(type="begin group", name="ref_group", label=f"RG {t}", relevant=f"{t} = 4")
@@ -65,6 +66,9 @@ def layout_form(L, variant=0, seed=0):
             # several indexed-repeat() calls in one expression, with plain references before, between and after them
             add(type="calculate", name="ref_ir3", calculation=f"indexed-repeat({t}, ${{{rep}}}, 1) + indexed-repeat({t}, ${{{rep}}}, 2) + {t}")
             add(type="calculate", name="ref_ir4", calculation=f"{t} + indexed-repeat({t}, ${{{rep}}}, 1) + {t} + indexed-repeat({t}, ${{{rep}}}, 2)")
+            # a last-saved reference before, after and inside an indexed-repeat() call of the same expression
+            add(type="calculate", name="ref_ir_ls", calculation=f"${{last-saved#target}} + indexed-repeat({t}, ${{{rep}}}, 1) + ${{last-saved#target}}")
+            add(type="calculate", name="ref_ir_ls2", calculation=f"indexed-repeat(${{last-saved#target}}, ${{{rep}}}, 1) + {t}")
             # two and three (repeat, index) pairs: every repeat argument is absolute
             allreps = [n for k, n in chain if k == "r"]
             if len(allreps) >= 2:
